@@ -751,8 +751,17 @@ def c16(rng, tier, repo):
         for f in ('a', 'sub/b', 'sub/deep/c'):
             with open(os.path.join(root, f), 'w') as fh:
                 fh.write(f)
-        C.write_manifest(os.path.join(root, 'Manifest'), [C.entry_line('DATA', f, f.encode(), ['SHA1']) for f in ('a', 'sub/b', 'sub/deep/c')])
-        for victim in ('sub', 'sub/deep', 'sub/b', 'a', 'sub/deep/c'):
+        os.makedirs(os.path.join(root, 'pkg'))
+        with open(os.path.join(root, 'pkg', 'd'), 'w') as fh:
+            fh.write('d')
+        C.write_manifest(os.path.join(root, 'pkg', 'Manifest'), [C.entry_line('DATA', 'd', b'd', ['SHA1'])])
+        with open(os.path.join(root, 'pkg', 'Manifest'), 'rb') as fh:
+            pm = fh.read()
+        C.write_manifest(os.path.join(root, 'Manifest'), [C.entry_line('DATA', f, f.encode(), ['SHA1']) for f in ('a', 'sub/b', 'sub/deep/c')] +
+                         [C.entry_line('MANIFEST', 'pkg/Manifest', pm, ['SHA1'])])
+        # (pkg/Manifest: a sub-Manifest *file* on another device -- e.g. a symlink to or a bind mount of a file -- while its
+        # directory is on the right one)
+        for victim in ('sub', 'sub/deep', 'sub/b', 'a', 'sub/deep/c', 'pkg/Manifest'):
             vp = os.path.join(root, victim)
 
             def bump(st):
@@ -773,7 +782,9 @@ def c16(rng, tier, repo):
                     return bump(st)
                 return st
             modes = ['verify', 'update', 'create']
-            if not os.path.isdir(vp):
+            if victim == 'pkg/Manifest':
+                modes = ['verify', 'update']
+            elif not os.path.isdir(vp):
                 # the single-path APIs of the loader, asked about the file itself
                 modes += ['verify_path', 'assert_path_verifies', 'update_entry_for_path']
             for mode in modes:
